@@ -275,6 +275,22 @@ def run(ctx: core.Ctx):
                 ctx.fail("mktrend", dict(x=cube[::-1, i, j].tolist(), time_axis="stored in descending order"),
                          dict(tau=float(dr.tau.values[i, j]), slope=float(dr.slope.values[i, j]), trend=int(dr.trend.values[i, j])), o,
                          note="time reversal flips the sign of tau, slope and flag")
+    # accessor on cubes WITHOUT a nodata attribute: every value is data, also the extreme values of the dtype (a constant pixel gives
+    # S = 0: tau 0, p 1, slope 0, no trend - it is not an "all nodata" pixel, there is no nodata)
+    for dt, lo in (("int16", -32768), ("int16", 32767), ("float32", float(np.finfo("float32").min)), ("float32", 0.0)):
+        c2 = np.array([[[rng.randint(0, 50) for _ in range(2)] for _ in range(2)] for _ in range(nt)]).astype(dt)
+        c2[:, 0, 0] = lo
+        c2[:, 1, 1] = np.array([lo if i % 3 == 0 else 5 + i for i in range(nt)]).astype(dt)
+        d2 = xr.DataArray(c2, dims=("time", "y", "x"), coords={"time": t})
+        r2 = d2.hdc.algo.mktrend()
+        ctx.case(("accessor-noattr", dt, lo), sample=dict(accessor="mktrend", nodata_attribute=None, dtype=dt, constant_pixel=lo))
+        ctx.count("accessor without nodata attribute")
+        got = (float(r2.tau.values[0, 0]), float(r2.pvalue.values[0, 0]), float(r2.slope.values[0, 0]), int(r2.trend.values[0, 0]))
+        if got != (0.0, 1.0, 0.0, 0):
+            ctx.fail("mktrend", dict(x=f"{nt} x {lo}", dtype=dt, nodata_attribute=None), got, (0, 1, 0, 0), note="a constant series: S = 0, p = 1, no trend")
+        o = oracle(c2[:, 1, 1].astype("float64").tolist())
+        if not (abs(r2.tau.values[1, 1] - o["tau"]) < 1e-6 and abs(r2.pvalue.values[1, 1] - o["p"]) < 1e-6):
+            ctx.fail("mktrend", dict(x=c2[:, 1, 1].tolist(), dtype=dt, nodata_attribute=None), dict(tau=float(r2.tau.values[1, 1]), p=float(r2.pvalue.values[1, 1])), o)
     ctx.trusted += ["native model driver (Hdc/Model/Stats.lean at Float)", "harness/props/c10.py oracle (O(n^2) definition, math.erfc)"]
 
 
